@@ -142,8 +142,13 @@ def t_destroy(ev, outcome, exc, path):
     for e in ev:
         if e[0] == 'db.load':
             mo = e[3]
+            if not hasattr(mo.cls, 'state'):
+                continue            # a class without a lifecycle state (opaque objects)
             st = mo.meta.get('initial_columns', {}).get('state')
-            if st is not None and hasattr(st, 't'):
+            if st is None:
+                return ("Destroy succeeded on a %s without looking at its state (it may be Active)"
+                        % mo.cls.__name__)
+            if hasattr(st, 't'):
                 if not path.is_valid(st.t != enums.State.ACTIVE.value):
                     return "Destroy succeeded on an object that may be Active"
     return True
@@ -180,20 +185,35 @@ for hname, (pcls, gate) in GATES.items():
 
 # ---------------------------------------------------------------- object-creating handlers (C03 owner, C07, C08, C09)
 AVAL = lambda k: ('obj', 'kmip.core.primitives.Base', {'value': k})      # noqa: E731
-ATTRS = ('sdict', ('bykey', {
-    'Cryptographic Algorithm': AVAL(('enum', 'kmip.core.enums.CryptographicAlgorithm')),
-    'Cryptographic Length': AVAL('nat'),
-    'Cryptographic Usage Mask': AVAL('nat'),
-    'Operation Policy Name': AVAL('str'),
-    'Name': 'opaque', 'Object Group': 'opaque', 'Sensitive': AVAL('bool'),
-}))
+def _attr_value_kinds():
+    """name -> kind of the entry of the attribute dictionary _process_template_attribute returns:
+    a list of decoded values for multivalued attributes (rule table), one decoded value otherwise"""
+    from kmip.services.server import policy as _sp
+    from kmip.core.messages import contents as _ct
+    kinds = {}
+    for name, rs in _sp.AttributePolicy(_ct.ProtocolVersion(2, 0))._attribute_rule_sets.items():
+        kinds[name] = 'opaque_list' if rs.multiple_instances_permitted else 'opaque'
+    kinds.update({
+        'Cryptographic Algorithm': AVAL(('enum', 'kmip.core.enums.CryptographicAlgorithm')),
+        'Cryptographic Length': AVAL('int'),     # a KMIP Integer: may be negative
+        'Cryptographic Usage Mask': AVAL('nat'),
+        'Operation Policy Name': AVAL('str'),
+        'Sensitive': AVAL('bool'),
+    })
+    return kinds
+
+
+ATTRS = ('sdict', ('bykey', _attr_value_kinds()))
 
 c = contract(E + "_process_template_attribute").props('C13', 'C15')
 c.args(self=ENGINE, template_attribute='opaque')
 c.raises(('exceptions.ItemNotFound', 'exceptions.InvalidField', 'exceptions.IndexOutOfBounds'))
 c.returns(ATTRS)
-c.trust("template-attribute processing not yet under its own contract: returns the attribute "
-        "dictionary (name -> value object) or raises a KmipError")
+c.trust("used at call sites as: returns the attribute dictionary (name -> decoded value object, a list of "
+        "them for multivalued attributes) or raises ItemNotFound / InvalidField / IndexOutOfBounds.  The "
+        "raising half and the absence of store effects are proved against the body by the variant contract "
+        "_process_template_attribute#body (contracts/c_template.py); the typing of the returned dictionary is "
+        "the assumed part")
 
 c = contract(E + "_set_attributes_on_managed_object").props('C13', 'C15')
 c.args(self=ENGINE, managed_object='opaque', attributes='opaque')
@@ -272,9 +292,11 @@ contract(E + "_process_create_key_pair").loop(0, "True", havoc={"public_key_attr
 c = contract("kmip.pie.factory.ObjectFactory.convert").props('C05', 'C13')
 c.args(self='opaque', obj='opaque')
 c.returns(('managed_fresh',))
-c.trust("conversion of a decoded core secret into the pie object to store: assumed to return a new, not yet "
-        "stored object of one of the seven stored classes without raising (its field-by-field fidelity is "
-        "C05's subject; a secret the pie constructors reject would surface here as an internal error)")
+c.raises(('TypeError', 'ValueError'))
+c.trust("conversion of a decoded core secret into the pie object to store: used at call sites as: returns a "
+        "new, not yet stored object of one of the seven stored classes, or raises TypeError / ValueError for a "
+        "secret the pie classes reject; both halves are proved against the body by the variant contract "
+        "convert#to-pie (contracts/c_factory.py), which also proves the field-by-field fidelity (C05)")
 
 c = contract("kmip.core.messages.payloads.register.RegisterResponsePayload.__init__").props('C07', 'C13')
 c.args(self='opaque', unique_identifier='opaque', template_attribute='none')
